@@ -13,7 +13,7 @@ for f in sorted(glob.glob("/verif/seeded/*/meta.json")):
         if line:
             title = line
             break
-    title = re.sub(r"^C\d\d-[a-e]\s*[—:-]*\s*", "", title)[:110].replace("|", "/")
+    title = re.sub(r"^C\d\d-[a-z]\s*[—:-]*\s*", "", title)[:110].replace("|", "/")
     rows.append("| %s | %s | %s | `%s` | %s |" % (m["name"], title, ", ".join(m["caught_by"]) or "MISSED", c.get("oracle"), "yes" if c.get("replay_exit") == 1 and c.get("replay_exit_on_unchanged_tree") == 0 else "no"))
 tbl = "\n".join(["| seeded change | what it is (sub-agent's own title) | caught by (quick tier) | oracle that fired | replay reproduces / clean on unchanged tree |",
                  "|---|---|---|---|---|"] + rows)
